@@ -128,8 +128,10 @@ func IndexFromFile(ctx context.Context,
 	// Go through the workers, starting with the first one, taking all chunks
 	// from their bucket before moving on to the next. It's possible that a worker
 	// reaches the end of the stream before the following worker does (eof=true),
-	// don't advance to the next worker in that case.
-	for _, w := range worker {
+	// don't advance to the next worker in that case. The next worker is the one
+	// this worker synced with, which is not necessarily the following one: a worker
+	// skips over followers that have finished and whose buckets it has emptied.
+	for w := worker[0]; w != nil; w = w.next {
 		for chunk := range w.results {
 			verifYield("pc.accept", "w", w.offset, "start", chunk.Start, "size", chunk.Size)
 			// Assemble the list of chunks in the index
